@@ -166,6 +166,30 @@ func runC34(c *Ctx) {
 		for _, cc := range CallsMatching(fn, CallWhere(ToFn(listContains), 0, isRisks)) {
 			_, idx, ok := elemIdx(cc.Common().Args[1])
 			if !ok {
+				// the test wrapped in a helper (isRisk(s)): the classification happens at the helper's call sites
+				if prm, isP := Strip(cc.Common().Args[1]).(*ssa.Parameter); isP && prm.Parent() == fn {
+					if obj, isF := fn.Object().(*types.Func); isF {
+						pi := -1
+						for j, fp := range fn.Params {
+							if fp == prm {
+								pi = j
+							}
+						}
+						for _, u := range P.UsesOf(obj) {
+							hc, isCall := u.Instr.(ssa.CallInstruction)
+							if !u.AsCall || !isCall || pi < 0 || pi >= len(hc.Common().Args) {
+								continue
+							}
+							_, hidx, hok := elemIdx(hc.Common().Args[pi])
+							if !hok {
+								continue
+							}
+							k++
+							c.touch(u.Fn)
+							c.Check(hidx == 0, fmt.Sprintf("%s#classifies-by-first-component#h%d", SSAFuncName(u.Fn), k), hc.Pos(), "risk-first test on component 0", fmt.Sprintf("a name is classified by testing component %d against the risk names; Full, ParseVerbatim, Resolve and ResolvePinned must all look at component 0", hidx))
+						}
+					}
+				}
 				continue // validation of *risk, not a classification
 			}
 			k++
@@ -212,6 +236,24 @@ func runC34(c *Ctx) {
 	}
 	if sts := StoresToField(clean, fName); len(sts) == 1 && trackVal != nil && riskVal != nil {
 		okN := DependsOn(sts[0].Val, VIs(trackVal)) && DependsOn(sts[0].Val, VIs(riskVal))
+		if jc, _, isCall := CallResult(sts[0].Val); !okN && isCall && ToFn(P.FuncObj("strings.Join"))(jc) && VConstStr("/")(jc.Common().Args[1]) {
+			// strings.Join(parts, "/") with the returned track and risk appended to parts
+			hasT, hasR := false, false
+			for _, b := range clean.Blocks {
+				for _, in := range b.Instrs {
+					if ap, ok := isBuiltinCall(in, "append"); ok && len(ap.Call.Args) == 2 {
+						for _, e := range VarargElems(ap.Call.Args[1]) {
+							if e == nil {
+								continue
+							}
+							hasT = hasT || VIs(trackVal)(e) || DependsOn(e, VIs(trackVal))
+							hasR = hasR || VIs(riskVal)(e) || DependsOn(e, VIs(riskVal))
+						}
+					}
+				}
+			}
+			okN = hasT && hasR
+		}
 		c.Check(okN, pkg+".Channel.Clean#name-from-normalised-parts", sts[0].Pos(), "Name is built from the returned Track and Risk", "Clean's Name is not built from the very track and risk values it returns (String() and the fields would disagree, so printing and re-parsing is not stable)")
 	} else {
 		c.Undecided(pkg+".Channel.Clean#name-from-normalised-parts", clean.Pos(), "expected one store each to Name, Track, Risk")
